@@ -38,6 +38,25 @@ func contextReq(id string, enums []*Enum, ann []*Message, T string, o ctxOpts) *
 	return r
 }
 
+// flatContextReq: T as a flatten child (with and without prefix) and as a variant of a flattened
+// discriminated oneof, for constructs whose own JSON form comes from a oneof / flatten / unwrap-map
+// codec (kept in a package of its own: the generators refuse some of these combinations).
+func flatContextReq(id string, enums []*Enum, ann []*Message, T string, withPrefix bool) *Request {
+	pkg := id + ".v1"
+	q := func(n string) string { return pkg + "." + n }
+	msgs := append([]*Message{}, ann...)
+	inFlat := M("InFlat", F("hid", 1, "string"), F("inner", 2, "", Msg(q(T)), Flatten(true)), F("tail_note", 4, "string"))
+	if withPrefix {
+		inFlat = M("InFlat", F("hid", 1, "string"), F("inner", 2, "", Msg(q(T)), Flatten(true)), F("pre", 3, "", Msg(q(T)), Flatten(true), FlattenPrefix("p_")), F("tail_note", 4, "string"))
+	}
+	msgs = append(msgs, M("Other", F("note", 1, "string")), inFlat,
+		M("InDiscFlat", F("hid", 1, "string"), F("val", 2, "", Msg(q(T)), InOneof("payload")), F("alt", 3, "", Msg(q("Other")), InOneof("payload"))).
+			WithOneofs(&Oneof{Name: "payload", HasConfig: true, Discriminator: "kind", Flatten: true}))
+	r := featureReq(id, enums, msgs, T, "InFlat", "InDiscFlat")
+	r.Tags = append(r.Tags, "contexts", "flat-contexts")
+	return r
+}
+
 func CodecCatalogue() []*Request {
 	out := FeatureCatalogue()
 	add := func(r *Request) { out = append(out, r) }
@@ -121,6 +140,28 @@ func CodecCatalogue() []*Request {
 		M("Series", F("by_sym", 1, "", Msg(q("cxunwrapmap", "BarList")), MapOf("string")), F("total_count", 2, "int64"), F("label", 3, "string"), F("raw", 4, "bytes"),
 			F("ids", 6, "uint64", Rep()), F("weights", 7, "float", MapOf("string"))),
 	}, "Series", ctxOpts{noFlatten: true}))
+	// constructs with a oneof / flatten / unwrap-map codec of their own, as flatten children
+	add(flatContextReq("cfxflat", nil, []*Message{
+		M("Addr", F("street", 1, "string"), F("zip_code", 2, "string"), F("floor", 3, "int32")),
+		M("Person", F("pid", 1, "string"), F("home", 2, "", Msg(q("cfxflat", "Addr")), Flatten(true)), F("age", 4, "int32")),
+	}, "Person", true))
+	add(flatContextReq("cfxoneof", nil, []*Message{
+		M("TextP", F("body", 1, "string")), M("ImageP", F("url", 1, "string"), F("width", 2, "int32")),
+		M("Event", F("eid", 1, "string"), F("text", 2, "", Msg(q("cfxoneof", "TextP")), InOneof("content")), F("image", 3, "", Msg(q("cfxoneof", "ImageP")), InOneof("content"), OneofVal("img")),
+			F("note", 4, "string", InOneof("content"))).WithOneofs(&Oneof{Name: "content", HasConfig: true, Discriminator: "ctype"}),
+	}, "Event", true))
+	add(flatContextReq("cfxoneofflat", nil, []*Message{
+		M("TextP", F("body", 1, "string")), M("ImageP", F("url", 1, "string"), F("width", 2, "int32")),
+		M("FlatEvent", F("eid", 1, "string"), F("text", 2, "", Msg(q("cfxoneofflat", "TextP")), InOneof("content")), F("image", 3, "", Msg(q("cfxoneofflat", "ImageP")), InOneof("content"), OneofVal("img"))).
+			WithOneofs(&Oneof{Name: "content", HasConfig: true, Discriminator: "ctype", Flatten: true}),
+	}, "FlatEvent", false))
+	add(flatContextReq("cfxunwrapmap", nil, []*Message{
+		M("Bar", F("t", 1, "int64"), F("sym", 2, "string")),
+		M("BarList", F("bars", 1, "", Msg(q("cfxunwrapmap", "Bar")), Rep(), Unwrap())),
+		M("Series", F("by_sym", 1, "", Msg(q("cfxunwrapmap", "BarList")), MapOf("string")), F("label", 3, "string")),
+	}, "Series", true))
+	// every codec feature on messages declared inside other messages (annotated, plain and field-less parents)
+	out = append(out, C14NestedCatalogue("quick")...)
 	// root unwrap forms not in the feature catalogue
 	add(featureReq("cxroot", nil, []*Message{
 		M("Bar", F("t", 1, "int64"), F("sym", 2, "string")),
